@@ -53,6 +53,10 @@ type Workload struct {
 	// process under the simulated clock, capturing file descriptor 1; otherwise the
 	// built binary is exec'ed (its clock reads VERIF_SIM_CLOCK).
 	InProcess bool `json:"in_process,omitempty"`
+	// CwdOther: the command is started from another directory than the workspace (workspace mode
+	// only); CwdFiles are placed there (e.g. a file named like the selected script)
+	CwdOther bool   `json:"cwd_other,omitempty"`
+	CwdFiles []File `json:"cwd_files,omitempty"`
 }
 
 type Prop struct{}
@@ -235,6 +239,15 @@ func (Prop) Generate(seed uint64, tier string) *core.Plan {
 	case 3:
 		w.InputFault = "dangling"
 	}
+	if w.Mode == "workspace" && r.Intn(4) == 0 {
+		w.CwdOther = true
+		if r.Intn(2) == 0 {
+			w.CwdFiles = append(w.CwdFiles, File{Name: w.Script, Kind: "file", Content: "set_measurement(\"from_cwd\")\nadd_key(cwd, 1)\n"})
+		}
+		if r.Intn(3) == 0 {
+			w.CwdFiles = append(w.CwdFiles, File{Name: "other.p", Kind: "file", Content: "a = = 1\n"})
+		}
+	}
 	w.InProcess = r.Intn(20) != 0
 	p := &core.Plan{Property: "C20", Version: core.HarnessVersion, Seed: seed, Tier: tier, ChooserSeed: simrt.Mix(seed, 20),
 		Rates: simrt.Rates{Recycle: 0.8, Purge: 0.02, Shuffle: 0.5}}
@@ -407,6 +420,18 @@ func (Prop) Run(p *core.Plan) *core.Result {
 			return &core.Result{Infra: err.Error()}
 		}
 	}
+	cwd := ws
+	if w.CwdOther {
+		cwd = filepath.Join(dir, "elsewhere")
+		if err := os.MkdirAll(cwd, 0o755); err != nil {
+			return &core.Result{Infra: err.Error()}
+		}
+		for _, f := range w.CwdFiles {
+			if err := os.WriteFile(filepath.Join(cwd, f.Name), []byte(f.Content), 0o644); err != nil {
+				return &core.Result{Infra: err.Error()}
+			}
+		}
+	}
 	inPath := filepath.Join(dir, "input.dat")
 	switch w.InputFault {
 	case "":
@@ -438,11 +463,11 @@ func (Prop) Run(p *core.Plan) *core.Result {
 	var runErr error
 	crashed := ""
 	if w.InProcess {
-		out, crashed = runInProcess(p, &w, ws, args)
+		out, crashed = runInProcess(p, &w, cwd, args)
 		res.Probes["in_process_cli_runs"]++
 	} else {
 		cmd := exec.Command(cli, args...)
-		cmd.Dir = ws
+		cmd.Dir = cwd
 		cmd.Env = []string{"TZ=" + w.Zone, fmt.Sprintf("VERIF_SIM_CLOCK=%d", w.ClockNanos), "HOME=" + dir, "PATH=/usr/bin:/bin"}
 		var stdout, stderr bytes.Buffer
 		cmd.Stdout, cmd.Stderr = &stdout, &stderr
